@@ -23,7 +23,54 @@ pboolean p_atomic_pointer_compare_and_exchange (volatile void *a, ppointer o, pp
 	if (*g_keyfield == o) { *g_keyfield = n; return TRUE; }
 	return FALSE;
 }
+#ifdef UNIT_CREATE_INTERNAL
+/* TRUSTED: pthread_attr_* / pthread_create / sysconf (call-log stubs: any result); sched_get_priority_min/max: -1 or a value in 0..255 */
+#include <sched.h>
+#include <unistd.h>
+unsigned g_attr_inits, g_attr_destroys, g_pcreates, g_pcreate_ok; _Bool g_attr_live; void *g_pcreate_arg; void *(*g_pcreate_fn) (void *);
+int pthread_attr_init (pthread_attr_t *a) { if (nondet_bool ()) return 12; g_attr_inits++; g_attr_live = 1; return 0; }
+int pthread_attr_destroy (pthread_attr_t *a) { ENV_REQ (g_attr_live, "pthread_attr_destroy: an initialised attribute object, once"); g_attr_destroys++; g_attr_live = 0; return 0; }
+int pthread_attr_setdetachstate (pthread_attr_t *a, int d) { ENV_REQ (g_attr_live, "attribute object initialised"); return nondet_bool () ? 0 : 22; }
+int pthread_attr_setinheritsched (pthread_attr_t *a, int i) { ENV_REQ (g_attr_live, "attribute object initialised"); return nondet_bool () ? 0 : 22; }
+int pthread_attr_getschedpolicy (const pthread_attr_t *a, int *p) { ENV_REQ (g_attr_live, "attribute object initialised"); if (nondet_bool ()) return 22; *p = nondet_int (); return 0; }
+int pthread_attr_setschedpolicy (pthread_attr_t *a, int p) { ENV_REQ (g_attr_live, "attribute object initialised"); return nondet_bool () ? 0 : 22; }
+int pthread_attr_setschedparam (pthread_attr_t *a, const struct sched_param *p) { ENV_REQ (g_attr_live, "attribute object initialised"); return nondet_bool () ? 0 : 22; }
+int pthread_attr_setstacksize (pthread_attr_t *a, size_t n) { ENV_REQ (g_attr_live, "attribute object initialised"); return nondet_bool () ? 0 : 22; }
+/* priority limits of a policy: -1 on error, else a small non-negative number (Linux 0..99; no known system exceeds 255) */
+int sched_get_priority_min (int p) { int r = nondet_int (); __CPROVER_assume (r >= -1 && r <= 255); return r; }
+int sched_get_priority_max (int p) { int r = nondet_int (); __CPROVER_assume (r >= -1 && r <= 255); return r; }
+long sysconf (int n) { return nondet_long (); }
+int pthread_create (pthread_t *t, const pthread_attr_t *a, void *(*fn) (void *), void *arg)
+{
+	ENV_REQ (g_attr_live && g_pcreate_ok == 0, "pthread_create: with the initialised attributes, never again after a thread was started");
+	g_pcreates++; g_pcreate_fn = fn; g_pcreate_arg = arg;
+	int r = nondet_int (); if (r == 0) { g_pcreate_ok++; *t = nondet_ulong (); } return r;
+}
+#endif
 #include "puthread-posix.c"
+#ifdef UNIT_CREATE_INTERNAL
+static void *thread_fn (void *a) { return a; }
+/* C05/C18/C20: the native thread handle -- one block, attribute object destroyed exactly once on every exit, at most one
+ * thread started, the handle itself handed to the new thread, nothing kept on failure */
+void h_create_internal (void)
+{
+	g_alloc_may_fail = 1; g_alloc_failed = 0; g_allocs = g_frees = 0; g_attr_inits = g_attr_destroys = g_pcreates = g_pcreate_ok = 0; g_attr_live = 0;
+	pboolean joinable = nondet_bool () ? TRUE : FALSE; int prio = nondet_int (); psize stack = nondet_size_t ();
+	__CPROVER_assume (prio >= (int) P_UTHREAD_PRIORITY_INHERIT && prio <= (int) P_UTHREAD_PRIORITY_TIMECRITICAL);
+	PUThread *t = p_uthread_create_internal (thread_fn, joinable, (PUThreadPriority) prio, stack);
+	OBL (!g_attr_live && g_attr_inits == g_attr_destroys, "the attribute object is destroyed exactly once on every exit");
+	if (t == NULL) {
+		OBL (g_allocs == g_frees && g_pcreate_ok == 0, "failed create: no thread runs, nothing stays allocated");
+		CANARY ("create failed"); return;
+	}
+	OBL (g_pcreate_ok == 1 && g_pcreate_fn == thread_fn && g_pcreate_arg == (void *) t, "exactly one thread is started, with the handle as its argument");
+	OBL (g_allocs == g_frees + 1 && t->base.joinable == joinable && t->base.prio == (PUThreadPriority) prio, "one handle block, joinable/priority recorded");
+	if (g_pcreates == 2) CANARY ("retried after EPERM");
+	p_uthread_free_internal (t);
+	OBL (g_allocs == g_frees, "free_internal releases the handle");
+	CANARY ("created");
+}
+#endif
 
 static void dtor (void *v) { g_dtor_calls++; g_dtor_arg = v; g_setspec_at_dtor = g_setspec; }
 static PUThreadKey *mk_key (_Bool with_dtor, _Bool created)
